@@ -8,10 +8,9 @@ Property theorems only.
 namespace Rlbox.C05
 open Rlbox
 
-/-- Never leaves: whatever `p`, `n`, `s`, a result is in the same sandbox as `p` (unconditional). -/
-theorem C05_inside (k : Nat) (f : ArithForm) (p : Nat) (n : Int) (s t : Nat)
-    (h : ptrArith k f p n s = some t) : sameSbx k p t = true := by
-  unfold ptrArith at h
+theorem core_inside (k : Nat) (f : ArithForm) (p : Nat) (n : Int) (s t : Nat)
+    (h : ptrArithCore k f p n s = some t) : sameSbx k p t = true := by
+  unfold ptrArithCore at h
   by_cases h0 : p = 0
   · simp [h0] at h
   · simp only [h0, if_false] at h
@@ -25,6 +24,14 @@ theorem C05_inside (k : Nat) (f : ArithForm) (p : Nat) (n : Int) (s t : Nat)
       · rename_i hs; cases h; exact hs
       · cases h
 
+/-- Never leaves: whatever `p`, `n`, `s`, a result is in the same sandbox as `p` (unconditional). -/
+theorem C05_inside (k : Nat) (f : ArithForm) (p : Nat) (n : Int) (s t : Nat)
+    (h : ptrArith k f p n s = some t) : sameSbx k p t = true := by
+  unfold ptrArith at h
+  split at h
+  · exact core_inside k f p n s t h
+  · cases h
+
 /-- ... and therefore inside `p`'s own region. -/
 theorem C05_inside_region (r : Region) (hr : r.wf) (f : ArithForm) (p : Nat) (n : Int) (s t : Nat)
     (hp : r.contains p) (h : ptrArith r.k f p n s = some t) : r.contains t :=
@@ -33,7 +40,7 @@ theorem C05_inside_region (r : Region) (hr : r.wf) (f : ArithForm) (p : Nat) (n 
 /-- Adding to or subtracting from a null tainted pointer aborts. -/
 theorem C05_null_aborts (k : Nat) (f : ArithForm) (n : Int) (s : Nat) :
     ptrArith k f 0 n s = none := by
-  simp [ptrArith]
+  simp [ptrArith, ptrArithCore]
 
 /-- What C05 demands: the exact address if it lies inside the sandbox, abort otherwise. -/
 def Exact (r : Region) (f : ArithForm) (p : Nat) (n : Int) (s : Nat) : Prop :=
@@ -46,12 +53,16 @@ def C05_full : Prop :=
   ∀ (r : Region) (f : ArithForm) (p : Nat) (n : Int) (s : Nat), r.wf → r.contains p → 0 < s →
     -(2 ^ 63 : Int) ≤ n → n < 2 ^ 64 → Exact r f p n s
 
-/-- Proved part: exact whenever the offset `|n|*s` does not come within `2^k` of `2^64`
-(the product or the sum would wrap around the address space otherwise). -/
-theorem C05_exact_partial (r : Region) (f : ArithForm) (p : Nat) (n : Int) (s : Nat)
+/-- the wrapped arithmetic alone is exact whenever the offset `|n|*s` does not come within `2^k` of
+`2^64` (the product or the sum would wrap around the address space otherwise) -/
+def ExactCore (r : Region) (f : ArithForm) (p : Nat) (n : Int) (s : Nat) : Prop :=
+  let e := exactTarget f p n s
+  ptrArithCore r.k f p n s = if (r.base : Int) ≤ e ∧ e < ((r.base + 2 ^ r.k : Nat) : Int) then some e.toNat else none
+
+theorem core_exact (r : Region) (f : ArithForm) (p : Nat) (n : Int) (s : Nat)
     (hr : r.wf) (hp : r.contains p) (hs : 0 < s)
-    (hprod : n.natAbs * s + 2 ^ r.k ≤ W64) : Exact r f p n s := by
-  unfold Exact
+    (hprod : n.natAbs * s + 2 ^ r.k ≤ W64) : ExactCore r f p n s := by
+  unfold ExactCore
   have hwf := hr
   obtain ⟨_, hb0, hb1⟩ := hr
   have hpc := hp
@@ -60,7 +71,7 @@ theorem C05_exact_partial (r : Region) (f : ArithForm) (p : Nat) (n : Int) (s : 
   have hp0 : p ≠ 0 := by omega
   have hna : n.natAbs ≤ n.natAbs * s := Nat.le_mul_of_pos_right _ hs
   -- the wrapped target
-  simp only [ptrArith, hp0, if_false]
+  simp only [ptrArithCore, hp0, if_false]
   -- characterise nU * s mod 2^64
   have key : ∀ t : Nat, (sameSbx r.k p t = true ↔ r.contains t) := fun t => sameSbx_iff_contains r hwf p t hpc
   by_cases hneg : n < 0
@@ -168,14 +179,66 @@ example : ptrArith 16 .sub 0x6a0000000010 5 4 = none := by decide
 example : (⟨16, 0x6a0000000000⟩ : Region).wf ∧ (⟨16, 0x6a0000000000⟩ : Region).contains 0x6a0000000010 := by
   simp [Region.wf, Region.contains, W64]
 
-/-- The full statement is false of the code as it is (finding F8): a product `n*s ≥ 2^64` wraps and
-the check is applied to the wrapped target. `p + 2^62` on an `int*` returns `p`. -/
-theorem C05_wrap_witness : ¬ C05_full := by
-  intro h
-  have := h ⟨16, 0x6a0000000000⟩ .add 0x6a0000000000 (2 ^ 62) 4
-    (by simp [Region.wf, W64]) (by simp [Region.contains]) (by decide) (by decide) (by decide)
-  revert this
-  simp [Exact, ptrArith, exactTarget, sameSbx, W64]
+/-- **Exact or abort, full strength** (after the repair of F8: `check_pointer_offset`): for every
+non-null in-region `p`, EVERY integer `n` and every stride, the result is the exact address
+`p ± n*s` when that lies inside the sandbox, and the operation aborts otherwise -- a product or sum
+that wraps around the address space can no longer land back inside. -/
+theorem C05_exact (r : Region) (f : ArithForm) (p : Nat) (n : Int) (s : Nat)
+    (hr : r.wf) (hp : r.contains p) (hs : 0 < s) : Exact r f p n s := by
+  have hwf := hr
+  obtain ⟨hal, hb0, hb1⟩ := hr
+  have hM := two_pow_pos r.k
+  -- an aligned positive base is at least the region size, so the region is at most half the address space
+  have hk : 2 ^ r.k ≤ r.base := by
+    have := Nat.div_add_mod r.base (2 ^ r.k)
+    rw [hal] at this
+    have hq : 0 < r.base / 2 ^ r.k := by
+      rcases Nat.eq_zero_or_pos (r.base / 2 ^ r.k) with h0 | h0
+      · rw [h0] at this; omega
+      · exact h0
+    calc 2 ^ r.k = 2 ^ r.k * 1 := by omega
+      _ ≤ 2 ^ r.k * (r.base / 2 ^ r.k) := Nat.mul_le_mul_left _ hq
+      _ ≤ r.base := by omega
+  unfold Exact ptrArith
+  by_cases hok : offsetOk n s = true
+  · -- within the offset limit: the wrapped arithmetic is exact
+    simp only [hok, if_true]
+    have hle : n.natAbs ≤ ((W64 - 1) / 2) / s := by simpa [offsetOk] using hok
+    have hmul : n.natAbs * s ≤ (W64 - 1) / 2 := by
+      calc n.natAbs * s ≤ ((W64 - 1) / 2) / s * s := Nat.mul_le_mul_right _ hle
+        _ ≤ (W64 - 1) / 2 := Nat.div_mul_le_self _ _
+    have := core_exact r f p n s hwf hp hs (by unfold W64 at *; omega)
+    exact this
+  · -- beyond the limit: the exact target is at least 2^63 bytes away from p, hence outside
+    have hgt : ((W64 - 1) / 2) / s < n.natAbs := by
+      have : ¬ n.natAbs ≤ ((W64 - 1) / 2) / s := by simpa [offsetOk] using hok
+      omega
+    have hbig : (W64 - 1) / 2 < n.natAbs * s := by
+      have h1 : (((W64 - 1) / 2) / s + 1) * s ≤ n.natAbs * s := Nat.mul_le_mul_right _ hgt
+      have h2 := Nat.div_add_mod ((W64 - 1) / 2) s
+      have h3 := Nat.mod_lt ((W64 - 1) / 2) hs
+      rw [Nat.add_mul, Nat.mul_comm] at h1
+      omega
+    have hE : (n * (s : Int)).natAbs = n.natAbs * s := by simp [Int.natAbs_mul]
+    unfold Region.contains at hp
+    simp only [hok, if_false, Bool.false_eq_true]
+    unfold exactTarget
+    generalize hD : n * (s : Int) = D at *
+    generalize 2 ^ r.k = M at *
+    unfold W64 at *
+    by_cases hf : f = .sub
+    · simp only [hf, if_true]; rw [if_neg (by omega)]
+    · simp only [hf, if_false]; rw [if_neg (by omega)]
+
+/-- the full-strength statement of the property now holds (it was false before the repair: `p + 2^62`
+on an `int*` returned `p`; witness kept in corpus/C05/) -/
+theorem C05_full_holds : C05_full := by
+  intro r f p n s hr hp hs _ _
+  exact C05_exact r f p n s hr hp hs
+
+/-- non-vacuity of the guard: the old witness now aborts -/
+example : ptrArith 16 .add 0x6a0000000000 (2 ^ 62) 4 = none := by decide
+example : ptrArithCore 16 .add 0x6a0000000000 (2 ^ 62) 4 = some 0x6a0000000000 := by decide
 
 /-- The ten source forms are the two primitive forms plus bookkeeping: which primitive, which
 operand, what is returned and what is stored back.  (The statement that post-decrement goes through
